@@ -2118,8 +2118,11 @@ parseHandshake:
     that are not errors.  These are checked here.
  */
     if (hsType != ssl->hsState &&
-        (hsType != SSL_HS_CLIENT_HELLO || ssl->hsState != SSL_HS_DONE))
+        (hsType != SSL_HS_CLIENT_HELLO || ssl->hsState != SSL_HS_DONE ||
+         !(ssl->flags & SSL_FLAGS_SERVER)))
     {
+        /* (A ClientHello on an established connection starts a
+           renegotiation - on a server. A client has no use for one.) */
 
 /*
         A mismatch is possible in the client authentication case.
